@@ -26,17 +26,18 @@ const levelNames = "LMQH"
 // symbol is one pristine symbol (built by the library, confirmed module for module by the
 // reference) together with the reference address maps used to damage it.
 type symbol struct {
-	Kind   string // "qr" | "dm"
-	Class  string // "v7" | "144x144": the size class used in violation keys
-	V      int    // QR version
-	L      int    // QR level 0..3 = L M Q H
-	Mask   int    // QR mask
-	DMi    int    // index into dm.Symbols
-	Text   string
-	ord    int   // position in the symbol list (deterministic tie-break)
-	Twin   bool  // the text is twinText (near-identical data blocks)
-	Latin1 bool  // written with the ISO-8859-1 hint (byte-aligned data: padText)
-	pad    []int // (block, phase) of padText, for replay records
+	Kind     string // "qr" | "dm"
+	Class    string // "v7" | "144x144": the size class used in violation keys
+	V        int    // QR version
+	L        int    // QR level 0..3 = L M Q H
+	Mask     int    // QR mask
+	DMi      int    // index into dm.Symbols
+	Text     string
+	ord      int   // position in the symbol list (deterministic tie-break)
+	Twin     bool  // the text is twinText (near-identical data blocks)
+	Latin1   bool  // written with the ISO-8859-1 hint (byte-aligned data: padText)
+	pad      []int // (block, phase) of padText, for replay records
+	dmValues int   // Data Matrix value-coverage symbol: 1.. = kind of dmValueText (0 = the ordinary payload)
 
 	w, h    int
 	rows    []*gozxing.BitArray // pristine rows; every decode gets a fresh matrix
@@ -523,6 +524,27 @@ func buildDM(di int) (s *symbol, problem string) {
 	if best == nil {
 		return s, firstProblem
 	}
+	finishDM(s, d, best, bestCW)
+	return s, ""
+}
+
+// buildDMText: the library's symbol of size di for exactly this text (value-coverage family).
+func buildDMText(di int, text string, valueKind int) (s *symbol, problem string) {
+	d := dm.Symbols[di]
+	s = &symbol{Kind: "dm", Class: fmt.Sprintf("%dx%d", d.Rows, d.Cols), DMi: di, Text: text, dmValues: valueKind}
+	bm, p := encodeDM(text, d)
+	if p != "" {
+		return s, p
+	}
+	cw, _, p := confirmDM(bm, text, d)
+	if p != "" {
+		return s, p
+	}
+	finishDM(s, d, bm, cw)
+	return s, ""
+}
+
+func finishDM(s *symbol, d dm.Symbol, best *gozxing.BitMatrix, bestCW []byte) {
 	s.setMatrix(best)
 	s.mods = dm.ModulePositions(d)
 	s.where = dmWhere(d)
@@ -559,7 +581,6 @@ func buildDM(di int) (s *symbol, problem string) {
 			panic("harness: dm module map does not read back the codewords")
 		}
 	}
-	return s, ""
 }
 
 func clip(t string) string {
